@@ -2,7 +2,7 @@
     Only statements; each closed by [exact <lemma>] and followed by Print Assumptions.
     Breaker-level statements are about the specification machine of Breaker.v, which
     [C06_refinement] shows answers exactly like the circuit.py model on every monotone history. *)
-From Redress Require Import Base Window Breaker BreakerProofs.
+From Redress Require Import Base Window Breaker BreakerProofs Budget Runner Corr Policy PolicyCorr PolicyProofs.
 
 (** While OPEN and before recovery_timeout_s has elapsed, allow() rejects and changes nothing. *)
 Theorem C07_open_rejects : forall c now s t0,
@@ -72,6 +72,64 @@ Theorem C07_half_open_free_admits : forall c now s,
   fst (sallow c now s) = KDecision true HALF_OPEN None /\ s_probe (snd (sallow c now s)) = true.
 Proof. exact half_open_free_admits. Qed.
 Print Assumptions C07_half_open_free_admits.
+
+(** ---------------- policy level ---------------- *)
+(** Through the policy, an open breaker rejects every call until recovery_timeout_s has elapsed, leaving
+    its failure history and its opening instant unchanged ... *)
+Theorem C07_policy_open_rejects : forall kc t ks oa,
+  st ks = OPEN -> opened_at ks = Some oa -> t - oa < k_rto kc ->
+  fst (allow kc t ks) = KDecision false OPEN (Some N_CIRCUIT_REJECTED) /\
+  st (snd (allow kc t ks)) = OPEN /\ opened_at (snd (allow kc t ks)) = Some oa /\
+  fails (snd (allow kc t ks)) = fails ks /\ probe (snd (allow kc t ks)) = probe ks.
+Proof. exact policy_open_rejects. Qed.
+Print Assumptions C07_policy_open_rejects.
+
+(** ... and a rejected call (call(): CircuitOpenError; execute(): not-ok outcome with zero attempts)
+    does not invoke the operation, is not recorded (not counted as a failure), takes no time and spends
+    no budget. *)
+Theorem C07_policy_rejected_call : forall kc x start b ks a s n,
+  preflight_abort x = false -> fst (allow kc start ks) = KDecision a s n -> a = false ->
+  let '(d, tr, tend, b', ks') := policy_call (Some kc) x start b ks in
+  filter is_invocation tr = [] /\ filter is_record tr = [] /\
+  d = (match pc_mode x with MCall => PDOpen s | MExec => PDOutcomeOpen s end) /\
+  tend = start /\ b' = b /\ ks' = snd (allow kc start ks).
+Proof. exact policy_rejected_call. Qed.
+Print Assumptions C07_policy_rejected_call.
+
+(** ---------------- the two known findings (kept, not repaired; DESIGN.md §7.5) ---------------- *)
+(** "All others are rejected until its result is recorded" fails when a record is issued by a call that
+    is not the probe.  (a) A policy call WITHOUT retry component whose abort_if answers True calls
+    record_cancel before it asks for admission: with a probe outstanding, the slot is freed and the next
+    caller becomes a second probe. *)
+Theorem C07_unadmitted_cancel_refuted :
+  exists kc ks x t,
+    st ks = HALF_OPEN /\ probe ks = true /\ preflight_abort x = true /\
+    let ks' := snd (policy_call (Some kc) x t [] ks) in
+    filter is_breaker_op (snd (fst (fst (fst (policy_call (Some kc) x t [] ks))))) = [PCancel] /\
+    fst (allow kc t ks') = KDecision true HALF_OPEN None.
+Proof.
+  exists (mk_kcfg 1 100 5 [TRANSIENT] []),
+         (snd (krun (mk_kcfg 1 100 5 [TRANSIENT] []) kinit [(0, KFail TRANSIENT); (5, KAllow)])),
+         (mk_pcall MExec false (mk_cfg 1 1000 None [] [] None [false; true] None) (mk_env [] [true] [] [] [] [] [] [] [] []) [] 0),
+         5.
+  vm_compute. repeat split; reflexivity.
+Qed.
+Print Assumptions C07_unadmitted_cancel_refuted.
+
+(** (b) A call admitted while CLOSED that ends while the breaker is HALF_OPEN settles the probe's slot:
+    its success closes the circuit although the probe has not reported. *)
+Theorem C07_stale_settle_refuted :
+  exists c h, fst (krun c kinit h) =
+    [KDecision true CLOSED None;                          (* call A admitted while CLOSED *)
+     KEvent (Some N_CIRCUIT_OPENED);                      (* another call fails: OPEN *)
+     KDecision true HALF_OPEN (Some N_CIRCUIT_HALF_OPEN); (* after the timeout probe P is admitted *)
+     KEvent (Some N_CIRCUIT_CLOSED);                      (* A ends with success: the circuit closes, P still outstanding *)
+     KStateIs CLOSED].
+Proof.
+  exists (mk_kcfg 1 100 5 [TRANSIENT] []), [(0, KAllow); (0, KFail TRANSIENT); (5, KAllow); (5, KSucc); (5, KState)].
+  vm_compute. reflexivity.
+Qed.
+Print Assumptions C07_stale_settle_refuted.
 
 (** Non-vacuity: open at t=0 (threshold 1), rejected until 4, probe at 5 (== timeout), second caller
     rejected, probe fails at 6 -> fresh timeout: rejected at 10, probe at 11, success closes. *)
